@@ -9,6 +9,7 @@ import residuals
 import scaling
 import newton
 import compose
+import reduce as reduce_rows
 
 # (n variables, p equalities, m inequalities): quick tier = no equalities, no inequalities, a mixed one and the largest one
 QUICK_SHAPES = [(1, 0, 1), (2, 1, 2), (3, 2, 2), (2, 1, 0)]
@@ -33,7 +34,7 @@ def build(tier):
     shapes = ALL_SHAPES if tier == 'thorough' else QUICK_SHAPES
     # one clang run per translation unit / filter, before the walks fan out
     core.parallel([(lambda tu=tu, flt=flt: astload.dump(tu, flt)) for tu, flt in (
-        (residuals.TU, residuals.FLT), (residuals.STATE_TU, residuals.STATE_FLT), (scaling.TU, scaling.NORM_FLT), (scaling.TU, 'reducer_t'), (scaling.UTIL_TU, scaling.UTIL_FLT))])
+        (residuals.TU, residuals.FLT), (residuals.STATE_TU, residuals.STATE_FLT), (scaling.TU, scaling.NORM_FLT), (scaling.TU, 'reducer_t'), (scaling.UTIL_TU, scaling.UTIL_FLT), (reduce_rows.UTIL_TU, reduce_rows.UTIL_FLT))])
     jobs = []
     for (n, p, m) in shapes:
         for hasQ in (True, False):
@@ -45,6 +46,7 @@ def build(tier):
     jobs += [guarded(j, what) for j, what in scaling.jobs(tier, shapes, info)]
     jobs += [guarded(j, what) for j, what in newton.jobs(tier, shapes, info)]
     jobs += [guarded(j, what) for j, what in compose.jobs(tier, shapes, info)]
+    jobs += [guarded(j, what) for j, what in reduce_rows.jobs(tier, shapes, info)]
     vcs = []
     for r in [j() for j in jobs]:
         vcs += r
